@@ -263,6 +263,25 @@ class SymSeq(sym.Sym):
         out.append(self._mk(cur))
         return out
 
+    def rsplit(self, sep=None, maxsplit=-1):
+        if maxsplit < 0:
+            return self.split(sep)
+        if sep is None:
+            raise HarnessError("rsplit(None, n) on symbolic text not modelled")
+        sep = self._same(sep).items
+        out, cur, i = [], [], len(self.items)
+        while i > 0:
+            j = i - len(sep)
+            if len(out) < maxsplit and j >= 0 and bool(SymBool(self._match_at(j, sep))):
+                out.append(self._mk(list(reversed(cur))))
+                cur = []
+                i = j
+            else:
+                cur.append(self.items[i - 1])
+                i -= 1
+        out.append(self._mk(list(reversed(cur))))
+        return list(reversed(out))
+
     def splitlines(self, keepends=False):
         out, cur = [], []
         for c in self.items:
